@@ -33,6 +33,8 @@ def check(ctx):
         if ctx.quick and lazy and (d + t) % 2:
             continue
         cases.append({"kind": "dp", "dp": d, "target": t, "ens": list(ens), "lazy": lazy})
+        if ens:  # difference patterns (specimen - reference): members with negative, positive and mixed-sign totals
+            cases.append({"kind": "dp", "dp": d, "target": t, "ens": list(ens), "lazy": lazy, "signed": True})
     for i, t, lazy in itertools.product(range(len(IMS)), range(len(IM_TARGETS)), (False, True)):
         cases.append({"kind": "im", "im": i, "target": t, "lazy": lazy})
     for what, s, lim, lazy in itertools.product(("dp", "polar"), (0.3, 1.0, [0.5, 1.2]), range(3), (False, True)):
@@ -61,6 +63,9 @@ def run_case(c):
         ens = tuple(c["ens"])
         r = rng("c16dp", c["dp"], ens)
         arr = r.random(size=ens + shape).astype(np.float32) + 0.05
+        if c.get("signed"):
+            off = np.linspace(-0.9, 0.4, int(np.prod(ens))).reshape(ens).astype(np.float32)  # totals from clearly negative to clearly positive
+            arr = arr + off[..., None, None]
         axes = [OrdinalAxis(values=tuple(range(n))) for n in ens]
         dp = M.DiffractionPatterns(arr, sampling=samp, ensemble_axes_metadata=axes, metadata={"energy": 1e5})
         if c["lazy"]:
@@ -75,13 +80,13 @@ def run_case(c):
         a = np.asarray(out.array, dtype=np.float64)
         s0 = arr.astype(np.float64).sum(axis=(-2, -1))
         s1 = a.sum(axis=(-2, -1))
-        e = float(np.abs(s1 / s0 - 1).max())
+        e = float(np.abs(s1 / s0 - 1).max()) if not c.get("signed") else float((np.abs(s1 - s0) / np.abs(arr.astype(np.float64)).sum(axis=(-2, -1))).max())
         worst = e / 1e-5
         if not e <= 1e-5:
             bad("dp/intensity-not-preserved", "interpolate(sampling=%r): pattern sums change by %.3g (relative); shapes %r -> %r" % (t, e, shape, a.shape[-2:]))
         if a.shape[:-2] != ens:
             bad("dp/ensemble-shape", "ensemble shape %r became %r" % (ens, a.shape[:-2]))
-        if (a < -1e-7).any():
+        if not c.get("signed") and (a < -1e-7).any():
             bad("dp/negative", "interpolated pattern has negative values")
         return {"viol": viol, "obs": "%r" % (a.shape[-2:],), "nt": a.shape[-2:] != shape, "err": worst}
     if c["kind"] == "im":
